@@ -692,6 +692,9 @@ def oracle_block(case):
     res = _block_documented(case, admm, AA, C_list, x)
     if not np.all(np.isfinite(np.array(x))) or res > 1e-8:
         return {"relative_residual_of_normal_equations": res, "accuracy_reported": float(sv.accuracy), "scale": case["scale"]}
+    if _block_known(case) is None and abs(float(sv.accuracy) - res) > 1e-9:
+        # theorem C10_accuracy_scale_invariant: rel_res of the system divided by 2a (resp. 2 omega rho_1) is rel_res of the documented one
+        return {"accuracy_reported": float(sv.accuracy), "true_relative_residual_of_normal_equations": res, "x_is_correct": True}
     return None
 
 
